@@ -64,6 +64,8 @@ class Interp(object):
         self.spec_funcs = {}
         self.facts_seen = None
         self.auto_unfold = True
+        self._qcache = {}
+        self._quant_cache = {}
         self.used_lemmas = set()
         self.entry_snapshot = None
         self.contract_globals = {}
@@ -79,9 +81,10 @@ class Interp(object):
         self._ps = None
         self._ps_ids = []
         self._ps_keep = []
-        self._qcache = {}
-        self._last_model = None
+        self._last_values = None
+        self.seq_mode = False
         self.br.oracle = lambda pc, extra: self.query(pc, extra, self.br.feas_timeout_ms)
+        self.br.in_process = lambda: not self.seq_mode
 
     def fresh_name(self, base):
         self.st.fresh += 1
@@ -94,9 +97,12 @@ class Interp(object):
         return z3.Bool(self.fresh_name(base))
 
     def fresh_seq(self, base='s'):
+        self.seq_mode = True
         return z3.Const(self.fresh_name(base), SeqS)
 
     def fresh_const(self, base, sort):
+        if sort != ObjS:
+            self.seq_mode = True
         return z3.Const(self.fresh_name(base), sort)
 
     def alloc(self, cell):
@@ -152,8 +158,9 @@ class Interp(object):
         if is_lit_true(g):
             # still recorded: trivially discharged obligations count
             pass
-        self.st.obligations.append(
-            Obligation(list(self.st.pc), g, kind, descr, where, list(self.br.decisions[:self.br.di])))
+        ob = Obligation(list(self.st.pc), g, kind, descr, where, list(self.br.decisions[:self.br.di]))
+        ob.seq = self.seq_mode
+        self.st.obligations.append(ob)
 
     def decide(self, t):
         """Branch on a z3 Bool; returns python bool for this path."""
@@ -199,18 +206,57 @@ class Interp(object):
             self._ps_keep.append(p)
         return self._ps
 
-    def query(self, pc, extra, budget_ms=600):
+    def has_quant(self, t):
+        k = t.get_id()
+        r = self._quant_cache.get(k)
+        if r is None:
+            found = False
+            stack = [t]
+            seen = set()
+            while stack:
+                x = stack.pop()
+                if z3.is_quantifier(x):
+                    found = True
+                    break
+                i = x.get_id()
+                if i in seen:
+                    continue
+                seen.add(i)
+                if z3.is_app(x):
+                    stack.extend(x.children())
+            r = (found, t)
+            self._quant_cache[k] = r
+        return r[0]
+
+    def query(self, pc, extra, budget_ms=600, values=None):
+        # engine-internal queries ignore quantified hypotheses: feasibility is then
+        # over-approximated and entailment under-approximated, both sound
+        pc = [p for p in pc if not self.has_quant(p)]
         key = (tuple(p.get_id() for p in pc), extra.get_id())
-        r = self._qcache.get(key)
-        if r is not None:
-            return r[0]
-        s = self._sync_solver(pc)
-        set_budget(s, budget_ms)
-        s.push()
-        s.add(extra)
-        r = s.check()
-        self._last_model = s.model() if r == z3.sat else None
-        s.pop()
+        if values is None:
+            r = self._qcache.get(key)
+            if r is not None:
+                return r[0]
+        if self.seq_mode:
+            from . import solver
+            res, vals, _ = solver.check(list(pc) + [extra], budget_ms, True, values)
+            r = {'sat': z3.sat, 'unsat': z3.unsat}.get(res, z3.unknown)
+            self._last_values = vals
+        else:
+            s = self._sync_solver(pc)
+            set_budget(s, budget_ms)
+            s.push()
+            s.add(extra)
+            r = s.check()
+            self._last_values = None
+            if r == z3.sat and values:
+                m = s.model()
+                vals = []
+                for v in values:
+                    e = m.eval(v, model_completion=True)
+                    vals.append(e.as_long() if z3.is_int_value(e) else (z3.is_true(e) if z3.is_bool(e) else None))
+                self._last_values = vals
+            s.pop()
         # keep the terms alive: z3 AST ids are reused after garbage collection
         self._qcache[key] = (r, tuple(pc), extra)
         return r
@@ -238,15 +284,15 @@ class Interp(object):
         t = self.rw(t)
         if z3.is_int_value(t):
             return t.as_long()
-        if self.query(self.st.pc, z3.BoolVal(True), 1500) != z3.sat:
+        if self.query(self.st.pc, z3.BoolVal(True), 1500, values=[t]) != z3.sat:
             return None
-        m = self._last_model
-        v = m.eval(t, model_completion=True)
-        if not z3.is_int_value(v):
+        vals = self._last_values
+        if not vals or not isinstance(vals[0], int) or isinstance(vals[0], bool):
             return None
+        v = vals[0]
         if self.query(self.st.pc, t != v, 1500) == z3.unsat:
-            self.learn(t, v.as_long())
-            return v.as_long()
+            self.learn(t, v)
+            return v
         return None
 
     def concretize(self, t, what='value'):
